@@ -21,6 +21,8 @@ def render_skeleton(prog, nconds):
             text.append("%s = %du8;" % (v, 10 + i))
         elif op == "cpy":
             text.append("%s = %s;" % (v, other))
+        elif op == "callc":
+            text.append("%s = h(%s);" % (v, v))
         elif op == "blk":
             text.append("{")
             stack.append("blk")
@@ -46,7 +48,9 @@ def render_skeleton(prog, nconds):
             k = stack.pop()
             text.append("true });" if k == "and" else ("} }" if k.startswith("match") else "}"))
     params = ", ".join("c%d: bool" % i for i in range(1, nconds + 1))
-    return "pub fn main(%s, v: u8) -> (u8, u8) { let mut a = 1u8; let mut b = 2u8; %s (a, b) }" % (params, " ".join(text))
+    # the constant a (7) is shadowed by main's variable a; the helper h reads the constant
+    prelude = "const a: u8 = 7u8;\nfn h(p: u8) -> u8 { a }\n" if any(x["op"] == "callc" for x in prog) else ""
+    return prelude + "pub fn main(%s, v: u8) -> (u8, u8) { let mut a = 1u8; let mut b = 2u8; %s (a, b) }" % (params, " ".join(text))
 
 
 def skeletons(run, harness):
@@ -55,7 +59,7 @@ def skeletons(run, harness):
     tier = run.tier
     r = tlc("CompileScheme", "CompileScheme_fixed.cfg" if tier == "quick" else "CompileScheme_fixed_thorough.cfg", workers=6, timeout=6000, xmx="16g")
     run.add_tlc("CompileScheme/fixed", r)
-    for sc in ("loop-shared", "and-no-mux"):
+    for sc in ("loop-shared", "and-no-mux", "call-sees-caller"):
         r2 = tlc("CompileScheme", "CompileScheme_%s.cfg" % sc, workers=2, timeout=900, must_succeed=False)
         run.add_tlc("CompileScheme/negative-control-" + sc, r2)
         if r2.ok:
